@@ -7,7 +7,7 @@ from .c06 import empty_dump
 
 ID = "C13"
 LEVEL = "fault_enumeration"
-RUNS = (3000, 100000)
+RUNS = (6000, 150000)
 RULE = ("one seeded 5.1 file (all delimiter classes / comment sets); one malformed line (missing bracket, text after bracket, empty "
         "section name, key+text without delimiter) is injected at EVERY line position in turn (complete single-fault enumeration per "
         "file, plus one two-fault plan); the file is read alone or as main file / k-th drop-in of a tree through all eight read "
